@@ -111,8 +111,9 @@ Proof.
   pose proof (Hf k p l Hk) as E. unfold tm_find in E.
   destruct (nth_error (o_tmto_lookup o) k) as [d1|] eqn:E1; [|apply nth_error_None in E1; lia].
   rewrite (pyindex_nat _ _ _ E1). cbn [bind].
-  destruct (dfind ostr_eqb p d1) as [d2|]; cbn [dict_get bind].
-  - destruct (dfind Z.eqb l d2) as [v|]; cbn [dict_get bind].
+  (* `try: return True, copy(tmto[..][..][..]) except KeyError: return False, None`, or the read alone inside the try *)
+  destruct (dfind ostr_eqb p d1) as [d2|]; cbn [dict_get bind catch mtry exn_eqb].
+  - destruct (dfind Z.eqb l d2) as [v|]; cbn [dict_get bind catch mtry exn_eqb].
     + destruct (clookup c (k, p, l)) as [v'|] eqn:E2; [|discriminate]. cbn in E. injection E as ->.
       rewrite gen_custom_copy_id; [reflexivity|]. apply otree_py_nil. intro Hv. subst. now apply (Hn (k, p, l)).
     + destruct (clookup c (k, p, l)); [discriminate | reflexivity].
@@ -130,25 +131,33 @@ Proof.
   intro H. unfold tm_find. rewrite nth_error_set_nth by exact H. destruct (Nat.eqb k k'); reflexivity.
 Qed.
 
-Theorem gen_opt_update fuel optmax o c k p l v : crel optmax o c -> k <= optmax -> v <> Some [] ->
-  exists o', py_opt_update fuel o p (Z.of_nat k) l (otree_py v) = Ok (tt, o') /\
-             crel optmax o' (cupdate c (k, p, l) v).
+(* the object after the inner dict tmto_lookup[k][p] has been created where missing *)
+Definition ensured (o : pyopt) (k : nat) (p : ostr) (d1 : pytm1) : pyopt :=
+  match dfind ostr_eqb p d1 with
+  | Some _ => o
+  | None => set_o_tmto_lookup o (set_nth (o_tmto_lookup o) k (dset ostr_eqb p [] d1))
+  end.
+
+(* the store proper, from that object *)
+Lemma update_tail fuel optmax o c k p l v d1 : crel optmax o c -> k <= optmax -> v <> Some [] ->
+  nth_error (o_tmto_lookup o) k = Some d1 ->
+  exists o',
+    (tmp3 <- py_opt_custom_copy fuel (ensured o k p d1) (otree_py v) ;;
+     tmp4 <- tm_set3 (o_tmto_lookup (ensured o k p d1)) (Z.of_nat k) p l tmp3 ;;
+     Ok (tt, set_o_tmto_lookup (ensured o k p d1) tmp4)) = Ok (tt, o') /\
+    crel optmax o' (cupdate c (k, p, l) v).
 Proof.
-  intros (Hm & Hl & Hf & Hn) Hk Hv. unfold py_opt_update.
+  intros (Hm & Hl & Hf & Hn) Hk Hv E1.
   assert (k < length (o_tmto_lookup o)) as Hlt by lia.
-  destruct (nth_error (o_tmto_lookup o) k) as [d1|] eqn:E1; [|apply nth_error_None in E1; lia].
-  rewrite (pyindex_nat _ _ _ E1). cbn [bind].
-  rewrite (dmem_dfind ostr_eqb). rewrite negb_involutive.
-  (* the state after the container has been created where missing *)
   set (d1' := match dfind ostr_eqb p d1 with Some _ => d1 | None => dset ostr_eqb p [] d1 end).
-  set (o1 := match dfind ostr_eqb p d1 with Some _ => o | None => set_o_tmto_lookup o (set_nth (o_tmto_lookup o) k d1') end).
+  set (o1 := ensured o k p d1).
   assert (o_max_length o1 = Z.of_nat optmax /\ length (o_tmto_lookup o1) = S optmax /\
           nth_error (o_tmto_lookup o1) k = Some d1' /\
           (forall k', k' <> k -> nth_error (o_tmto_lookup o1) k' = nth_error (o_tmto_lookup o) k') /\
           (exists d2, dfind ostr_eqb p d1' = Some d2 /\
                       d2 = match dfind ostr_eqb p d1 with Some x => x | None => [] end) /\
           (forall p', p' <> p -> dfind ostr_eqb p' d1' = dfind ostr_eqb p' d1)) as (Hm1 & Hl1 & Hn1 & Ho1 & (d2 & Hd2 & Hd2') & Hp1).
-  { subst o1 d1'. destruct (dfind ostr_eqb p d1) as [x|] eqn:E2.
+  { subst o1 d1'. unfold ensured. destruct (dfind ostr_eqb p d1) as [x|] eqn:E2.
     - repeat split; auto. exists x. auto.
     - cbn [set_o_tmto_lookup o_max_length o_tmto_lookup]. rewrite set_nth_length.
       repeat split; auto.
@@ -158,18 +167,7 @@ Proof.
       + exists []. split; [|reflexivity]. rewrite (dfind_dset ostr_eqb ostr_eqb_eq). now rewrite ostr_eqb_refl.
       + intros p' Hp'. rewrite (dfind_dset ostr_eqb ostr_eqb_eq).
         destruct (ostr_eqb p p') eqn:E3; [apply ostr_eqb_eq in E3; congruence | reflexivity]. }
-  assert ((self <- (if is_none (dfind ostr_eqb p d1)
-                    then tmp2 <- tm_set2 (o_tmto_lookup o) (Z.of_nat k) p [] ;;
-                         Ok (set_o_tmto_lookup o tmp2)
-                    else Ok o) ;; Ok self) = Ok o1) as Hstep.
-  { subst o1 d1'. destruct (dfind ostr_eqb p d1) eqn:E2; cbn [is_none]; [reflexivity|].
-    unfold tm_set2, tm_get1. rewrite (pyindex_nat _ _ _ E1). cbn [bind].
-    rewrite pysetindex_nat by exact Hlt. reflexivity. }
-  match goal with |- exists o', bind ?a ?f = _ /\ _ =>
-    assert (a = Ok o1) as -> by (rewrite <- Hstep; destruct (is_none (dfind ostr_eqb p d1)); [|reflexivity];
-                                 destruct (tm_set2 (o_tmto_lookup o) (Z.of_nat k) p []); reflexivity)
-  end.
-  cbn [bind]. rewrite gen_custom_copy_id by (now apply otree_py_nil).
+  rewrite gen_custom_copy_id by (now apply otree_py_nil).
   cbn [bind]. unfold tm_set3, tm_get1. rewrite (pyindex_nat _ _ _ Hn1). cbn [bind].
   rewrite Hd2. cbn [dict_get bind].
   rewrite pysetindex_nat by lia. cbn [bind].
@@ -194,4 +192,23 @@ Proof.
       rewrite <- (Hf k' p' l' Hk'). unfold tm_find. rewrite Ho1; [reflexivity|].
       intro; subst. now rewrite Nat.eqb_refl in Ek.
   - intros key. rewrite clookup_cupdate. destruct (ckey_eqb (k, p, l) key); [congruence | apply Hn].
+Qed.
+
+Theorem gen_opt_update fuel optmax o c k p l v : crel optmax o c -> k <= optmax -> v <> Some [] ->
+  exists o', py_opt_update fuel o p (Z.of_nat k) l (otree_py v) = Ok (tt, o') /\
+             crel optmax o' (cupdate c (k, p, l) v).
+Proof.
+  intros Hrel Hk Hv. pose proof Hrel as (Hm & Hl & _ & _).
+  assert (k < length (o_tmto_lookup o)) as Hlt by lia.
+  destruct (nth_error (o_tmto_lookup o) k) as [d1|] eqn:E1; [|apply nth_error_None in E1; lia].
+  destruct (update_tail fuel optmax o c k p l v d1 Hrel Hk Hv E1) as (o' & E & Hrel').
+  exists o'. split; [|exact Hrel']. rewrite <- E. clear E Hrel' Hrel.
+  (* the head: `if p not in tmto[k]: tmto[k][p] = {}`, or `tmto[k].setdefault(p, {})` *)
+  unfold py_opt_update, ensured, tm_setdefault2, tm_set2, tm_get1.
+  destruct o as [ml tm]. cbn [o_tmto_lookup o_max_length set_o_tmto_lookup] in *.
+  rewrite ?(pyindex_nat _ _ _ E1). cbn [bind].
+  rewrite ?(dmem_dfind ostr_eqb), ?negb_involutive.
+  destruct (dfind ostr_eqb p d1); cbn [is_none negb bind].
+  - reflexivity.
+  - rewrite ?(pyindex_nat _ _ _ E1). cbn [bind]. rewrite pysetindex_nat by exact Hlt. reflexivity.
 Qed.
